@@ -60,6 +60,8 @@ type replayFile struct {
 	Decoded  any             `json:"decoded,omitempty"`
 	Trace    []string        `json:"trace,omitempty"`
 	Note     string          `json:"note,omitempty"`
+	// RangeFrom: see the worker's ReplayFile
+	RangeFrom *uint64 `json:"range_from,omitempty"`
 }
 
 type desc struct {
@@ -96,6 +98,12 @@ var (
 	wdSecs    int
 )
 
+var (
+	deferHarness bool
+	harnessMu    sync.Mutex
+	harnessErrs  []string
+)
+
 func die(format string, a ...any) {
 	fmt.Fprintf(os.Stderr, "supervisor: "+format+"\n", a...)
 	os.Exit(2)
@@ -118,6 +126,7 @@ type chunkResult struct {
 	out      *workerOut
 	sigs     []byte
 	crashed  bool
+	harness  bool
 	crashIdx uint64
 	stderr   string
 	exit     int
@@ -146,7 +155,17 @@ func runChunk(id int, from, to uint64, trace bool) chunkResult {
 		}
 		if res.exit == 3 {
 			// 3 = harness error reported by the worker itself (the Go runtime uses
-			// 2 for fatal errors and escaped panics, which are verdict material)
+			// 2 for fatal errors and escaped panics, which are verdict material).
+			// In the sweep it is kept until the end: a library that writes outside
+			// its memory makes harness code fail in arbitrary ways, and violations
+			// confirmed elsewhere in the sweep must not be lost to that.
+			if deferHarness {
+				harnessMu.Lock()
+				harnessErrs = append(harnessErrs, res.stderr)
+				harnessMu.Unlock()
+				res.harness = true
+				return res
+			}
 			fmt.Fprint(os.Stderr, res.stderr)
 			die("worker reported a harness error")
 		}
@@ -534,6 +553,7 @@ func main() {
 		violationRec
 		crash  bool
 		stderr string
+		from   uint64 // first run of the chunk the crash happened in
 	}
 	firstViol := map[string]*viol{}
 	pending := int(nchunks)
@@ -585,20 +605,30 @@ func main() {
 					finish()
 					continue
 				}
+				deferHarness = true
 				res := runChunk(j.id, j.from, j.to, false)
+				if res.harness {
+					finish()
+					continue
+				}
 				if res.crashed {
 					class, key, detail := crashClass(res.exit, res.stderr)
 					if class == "data-race" && key == "race:" {
 						// neither access has a frame of the library under test: the harness
-						// raced with itself, which says nothing about the property
-						fmt.Fprintf(os.Stderr, "%s\n", detail)
-						die("data race between two accesses of the harness itself (run %d): harness defect", res.crashIdx)
+						// raced with itself, which says nothing about the property — unless
+						// the same sweep shows the library reading or writing through wild
+						// pointers (decided at the end, like the harness errors)
+						harnessMu.Lock()
+						harnessErrs = append(harnessErrs, fmt.Sprintf("data race between two accesses of the harness itself (run %d)\n%s\n", res.crashIdx, detail))
+						harnessMu.Unlock()
+						finish()
+						continue
 					}
 					mu.Lock()
 					ck := class + "|" + key
 					agg.ViolCount[ck]++
 					if _, ok := firstViol[ck]; !ok || firstViol[ck].Index > res.crashIdx {
-						firstViol[ck] = &viol{violationRec: violationRec{Index: res.crashIdx, Class: class, Key: key, Detail: detail}, crash: true, stderr: res.stderr}
+						firstViol[ck] = &viol{violationRec: violationRec{Index: res.crashIdx, Class: class, Key: key, Detail: detail}, crash: true, stderr: res.stderr, from: j.from}
 					}
 					nCrash := int64(0)
 					for k, v := range agg.ViolCount {
@@ -661,6 +691,7 @@ func main() {
 	<-done
 	wg.Wait()
 
+	deferHarness = false
 	// ---- violations: confirm in a fresh process, minimise, report ---------------------
 	var keys []string
 	for k := range firstViol {
@@ -724,8 +755,32 @@ func main() {
 				os.Remove(rpath)
 				continue
 			} else if !res.crashed {
-				fmt.Fprintf(os.Stderr, "%s\n", v.stderr)
-				die("crash of run %d (class %s) did not reproduce when run alone: nondeterministic harness or cross-run state", v.Index, v.Class)
+				// A library that writes outside its allocations kills the worker where
+				// the damage happens to be read: that depends on what the earlier runs
+				// of the same worker left on the heap.  Re-execute the chunk up to and
+				// including the run, in a fresh process.
+				res = runChunk(100000+reported, v.from, v.Index+1, false)
+				if !res.crashed {
+					// decided at the end of the sweep, like the harness errors
+					harnessErrs = append(harnessErrs, fmt.Sprintf("%s\ncrash of run %d (class %s) did not reproduce when run alone, nor after the runs %d..%d of its chunk\n", firstLines(v.stderr, 40), v.Index, v.Class, v.from, v.Index))
+					os.Remove(rpath)
+					continue
+				}
+				from := v.from
+				rf.RangeFrom = &from
+				c2, k2, d2 := crashClass(res.exit, res.stderr)
+				rf.Note = fmt.Sprintf("worker process died during this run; it does not when the run executes alone, it does after the runs %d..%d of the same seed in one process (memory left behind by a library that writes outside its allocations): the replay executes that range", v.from, v.Index)
+				if c2 != v.Class || k2 != v.Key {
+					rf.Note += fmt.Sprintf("; first seen as %s|%s", v.Class, v.Key)
+					v.Class, v.Key, v.Detail = c2, k2, d2
+					rf.Class, rf.Key, rf.Detail = c2, k2, d2
+				}
+				writeJSON(rpath, rf)
+				fmt.Printf("violation class=%s key=%s occurrences=%d first_run=%d\n  %s\n", v.Class, v.Key, agg.ViolCount[ck], v.Index, strings.ReplaceAll(firstLines(rf.Detail, 12), "\n", "\n  "))
+				violLines = append(violLines, fmt.Sprintf("VIOLATION property=%s replay=%s", propID, rpath))
+				violations++
+				reported++
+				continue
 			}
 			c2, k2, _ := crashClass(res.exit, res.stderr)
 			if res.crashed && (c2 != v.Class || k2 != v.Key) {
@@ -791,7 +846,12 @@ func main() {
 					res, crashed, _, _ = runReplay(rpath, false, 0)
 				}
 				if crashed || res == nil || res.Class == "" {
-					die("violation %s of run %d did not reproduce from its tape in a fresh process in 9 attempts: nondeterministic harness", ck, v.Index)
+					// decided at the end of the sweep: fatal, unless the sweep confirms that
+					// the library faults or writes outside its memory (then what a worker
+					// saw after that damage need not show in a fresh process)
+					harnessErrs = append(harnessErrs, fmt.Sprintf("violation %s of run %d did not reproduce from its tape in a fresh process in 9 attempts\n", ck, v.Index))
+					os.Remove(rpath)
+					continue
 				}
 				unstable = true
 				rf.Note = fmt.Sprintf("first seen as %s|%s; the class depends on Go's map iteration order inside the library under test, so a replay may show a sibling class", v.Class, v.Key)
@@ -907,6 +967,22 @@ func main() {
 		propID, tier, agg.Runs, agg.Evaluations, agg.NonTrivial, len(sigset), agg.Steps, wall, violations, len(knownHit))
 	for _, l := range violLines {
 		fmt.Println(l)
+	}
+	if len(harnessErrs) > 0 {
+		// harness errors of the sweep: fatal unless the same sweep confirmed that the
+		// library faults, panics or writes outside its memory
+		unsafeSeen := false
+		for ck := range firstViol {
+			c := strings.SplitN(ck, "|", 2)[0]
+			if c == "fatal" || c == "panic" || c == "memory" || c == "crash" || c == "out-of-bounds-write" || c == "input-modified" || c == "data-race" {
+				unsafeSeen = true
+			}
+		}
+		if violations == 0 || !unsafeSeen {
+			fmt.Fprint(os.Stderr, harnessErrs[0])
+			die("worker reported a harness error (%d in this sweep)", len(harnessErrs))
+		}
+		fmt.Printf("WARNING %d worker(s) stopped with an error inside harness code; the sweep also confirmed that the library faults / panics / writes outside its memory, which makes harness code fail in arbitrary ways: reported as collateral, not as a harness defect\n", len(harnessErrs))
 	}
 	if violations > 0 {
 		os.Exit(1)
